@@ -412,6 +412,11 @@ impl<'a, W: 'static, R: 'static, T: 'static> RuntimeScope<'a, W, R, T> {
                 self.eval_func_with_expressions(func, &args, rt, tail_available)
             }
             XFunction::UserFunction { template, output } => {
+                // a user function does not handle error arguments: the leftmost one is the result
+                // and the body does not run
+                if let Some(err) = args.iter().find_map(|a| a.as_ref().err()) {
+                    return Ok(TailedEvalResult::Value(Err(err.clone())));
+                }
                 {
                     rt.increment_call_limit()?;
                     rt.check_timeout()?;
@@ -429,6 +434,9 @@ impl<'a, W: 'static, R: 'static, T: 'static> RuntimeScope<'a, W, R, T> {
                                 if recursion_depth > recursion_limit {
                                     return Err(RuntimeViolation::MaximumRecursion);
                                 }
+                            }
+                            if let Some(err) = new_args.iter().find_map(|a| a.as_ref().err()) {
+                                break Ok(TailedEvalResult::Value(Err(err.clone())));
                             }
                             args = new_args;
                         }
